@@ -407,7 +407,8 @@ func FlattenEventLists(eventslist []*EventList) (*EventList, error) {
 		prod.Mul(prod, e.product)
 		events = append(events, e.Events...)
 	}
-	return &EventList{Events: events, product: prod, verified: true}, nil
+	// the parts are internally consistent, but whether they connect is for Verify to find out
+	return &EventList{Events: events, product: prod}, nil
 }
 
 type compressedEventList struct {
@@ -494,14 +495,15 @@ func (el *EventList) Verify(acc *Accumulator) error {
 	if count == 0 {
 		return nil
 	}
+	// Whatever we know about the chain itself, it must end in the event that acc was signed over
+	if err = events[count-1].hashEquals(acc.EventHash); err != nil {
+		return errors.WrapPrefix(err, "update chain has wrong hash", 0)
+	}
 	if el.verified {
 		if el.validationErr != nil {
 			return el.validationErr
 		}
 		return nil
-	}
-	if err = events[count-1].hashEquals(acc.EventHash); err != nil {
-		return errors.WrapPrefix(err, "update chain has wrong hash", 0)
 	}
 	// The parent hash of the first event is compared with nothing below. It must at least be a
 	// well-formed hash of the expected length: the hash of an event covers index, parent hash and
